@@ -24,6 +24,10 @@ class LowerError(Exception):
     pass
 
 
+class _SkipNode(Exception):
+    pass
+
+
 # ---------------------------------------------------------------- repo hash
 _repo_hash = None
 
@@ -199,7 +203,7 @@ def _ctype(t):
 
 
 def is_stream(t):
-    return bool(re.search(r'\b(basic_)?[io]f?stream\b', t))
+    return bool(re.search(r'\b((basic_)?[io]f?stream|basic_ios|ios_base)\b', t))
 
 
 def split_params(fn_type):
@@ -569,10 +573,20 @@ class Lowerer:
         def need_nomacro(n, what):
             r = rng(n)
             if r is None or r[2]:
+                if r is not None and text[r[0]:r[0] + 7] == 'assert(':
+                    raise _SkipNode()   # glibc's C++ assert expands to casts; the C expansion of the same text needs no edit
                 raise LowerError('%s: %s inside a macro body needs an edit' % (qual, what))
             return r
 
         def walk(n, parent=None):
+            try:
+                walk1(n, parent)
+            except _SkipNode:
+                for c in n.get('inner', []):
+                    if isinstance(c, dict) and c:
+                        walk(c, n)
+
+        def walk1(n, parent=None):
             k = n.get('kind')
             r = rng(n)
             # ---- statements of stream type are dropped
@@ -696,8 +710,11 @@ class Lowerer:
                                 targs = m.group(2)
                             new = base_name
                             _, ps = split_params(fty)
+                            if targs is None and base_name in ('saveValue', 'loadValue') and len(ps) >= 2:
+                                # template argument deduced from the value / array parameter
+                                targs = canon_elem(ps[1].replace('const', '').replace('*', '').strip())
                             if targs is not None:
-                                new = '%s__%s__%d' % (base_name, cname(targs), len(ps))
+                                new = '%s__%s__%d' % (base_name, cname(canon_elem(targs)), len(ps))
                             elif base_name in OVERLOADED_FREE:
                                 new = base_name + '__' + mangle_params(ps)
                         if new != t:
@@ -909,8 +926,8 @@ class Lowerer:
                 continue
             clause = ' ' + ' '.join(loops[i]) + ' '
             if l['kind'] == 'DoStmt':
-                ls, le, _, _ = rng(l)
-                ed.insert(le, clause)
+                bodyn = [c for c in l['inner'] if isinstance(c, dict) and c][0]   # do <clauses> body while (cond);
+                ed.insert(rng(bodyn)[0], clause)
             else:
                 bodyn = [c for c in l['inner'] if isinstance(c, dict) and c][-1]
                 b0 = rng(bodyn)[0]
